@@ -177,3 +177,171 @@ intros Fn Bn. destruct (from_total_decomp nt Fn Bn) as (k & Hk0 & Hk & [R0 R1] &
 - unfold theta. rewrite B, R, Hk. replace (_ - _) with 0 by ring. rewrite Rabs_R0. pose proof E10pos. lra.
 - unfold theta. rewrite B, R, Hk, plus_IZR. apply Rabs_le_inv in N. apply Rabs_le. lra.
 Qed.
+
+(* ================= Geonum + Geonum, general path: blade history is never lost ================= *)
+Section GeneralSum.
+Context (L : libm).
+
+Definition sum_adjusted (a b : geonum) : F :=
+  let angle1 := grade_angle (ang a) in
+  let angle2 := grade_angle (ang b) in
+  let opp_sum := fadd (fmul (mag a) (sinF L angle1)) (fmul (mag b) (sinF L angle2)) in
+  let adj_sum := fadd (fmul (mag a) (cosF L angle1)) (fmul (mag b) (cosF L angle2)) in
+  fsub (atan2F L opp_sum adj_sum) (fdiv (fmul (of_Z (blade (ang a) + blade (ang b))) PI) two).
+
+Lemma gadd_general_form a b : aeqb (ang a) (ang b) = false ->
+  aeqb (add_vv (ang a) (new one one)) (ang b) || aeqb (add_vv (ang b) (new one one)) (ang a) = false ->
+  ang (gadd_vv L a b) = new_with_blade (blade (ang a) + blade (ang b)) (sum_adjusted a b) PI.
+Proof. intros H1 H2. unfold gadd_vv. rewrite H1, H2. reflexivity. Qed.
+
+(* on the general path the sum's angle is canonical and its blade count is at least the sum of the
+   operands' blade counts, provided the re-encoded total (atan2 result minus the blade shift, times
+   PI / PI) is finite and at most 2^42 in magnitude - which the domain guarantees (blades <= 2^40) *)
+Lemma gadd_general_history a b : aeqb (ang a) (ang b) = false ->
+  aeqb (add_vv (ang a) (new one one)) (ang b) || aeqb (add_vv (ang b) (new one one)) (ang a) = false ->
+  (0 <= blade (ang a) + blade (ang b) < 2 ^ 53)%Z ->
+  fin (total_angle (sum_adjusted a b) PI) -> Rabs (R_ (total_angle (sum_adjusted a b) PI)) <= bpow radix2 42 ->
+  canonp (rem (ang (gadd_vv L a b))) /\ (blade (ang a) + blade (ang b) <= blade (ang (gadd_vv L a b)))%Z.
+Proof.
+intros H1 H2 Hc Ft Bt. rewrite (gadd_general_form a b H1 H2).
+destruct (new_canon _ _ Ft Bt) as [Cn Bn].
+pose proof (new_with_blade_adds (blade (ang a) + blade (ang b)) (sum_adjusted a b) PI Hc Cn) as S.
+split. eapply steps_canon; eauto. destruct S as (E & _). rewrite E. lia.
+Qed.
+
+End GeneralSum.
+
+(* ================= grade_angle stays in [0, 4q) ================= *)
+Lemma PIval : R_ PI = 2 * R_ Q /\ fin PI.
+Proof. split; [|reflexivity]. rewrite Qval. vm_compute PI. unfold B2R, F2R. simpl. lra. Qed.
+Lemma two_val : R_ two = 2 /\ fin two.
+Proof. split; [|reflexivity]. vm_compute two. unfold B2R, F2R. simpl. lra. Qed.
+
+Lemma grade_angle_range a : canonp (rem a) ->
+  fin (grade_angle a) /\ 0 <= R_ (grade_angle a) < 4 * R_ Q.
+Proof.
+intros (Fr & R0 & R1). unfold grade_angle.
+pose proof (grade_range a) as Hg. set (g := grade a) in *.
+destruct (of_Z_R g ltac:(lia)) as [Vg Fg].
+destruct PIval as [VP FP]. destruct two_val as [V2 F2]. pose proof Qpos as Qp. pose proof E10pos as Ep.
+assert (G : 0 <= IZR g <= 3). { split; apply IZR_le; lia. }
+assert (Tiny : bpow radix2 (-1075) <= / 1073741824 / 1073741824).
+{ apply Rle_trans with (bpow radix2 (-60)). apply bpow_le; lia. simpl. lra. }
+pose proof (bpow_gt_0 radix2 (-1075)) as Tp.
+destruct (fmul_R (of_Z g) PI Fg FP) as [V1 F1].
+{ apply small_le_1000. rewrite Vg, VP, Qval. apply Rabs_le. nra. }
+rewrite Vg, VP in V1.
+assert (P0 : 0 <= IZR g * (2 * R_ Q)) by nra.
+pose proof (rnd_upper _ P0) as U1. pose proof (rnd_ge0 _ P0) as L1. rewrite <- V1 in U1, L1.
+set (x1 := fmul (of_Z g) PI) in *.
+destruct (fdiv_R x1 two F1) as [V3 F3].
+{ rewrite V2; lra. }
+{ apply small_le_1000. rewrite V2. apply Rabs_le. rewrite Qval in *. nra. }
+rewrite V2 in V3.
+assert (D0 : 0 <= R_ x1 / 2) by lra.
+pose proof (rnd_upper _ D0) as U3. pose proof (rnd_ge0 _ D0) as L3. rewrite <- V3 in U3, L3.
+set (x3 := fdiv x1 two) in *.
+destruct (fadd_R x3 (rem a) F3 Fr) as [V4 F4].
+{ apply small_le_1000. apply Rabs_le. rewrite Qval, E10val in *. nra. }
+split; [exact F4|]. rewrite V4.
+assert (S0 : 0 <= R_ x3 + R_ (rem a)) by lra.
+split. now apply rnd_ge0.
+eapply Rle_lt_trans. apply (rnd_upper _ S0). rewrite Qval, E10val in *. nra.
+Qed.
+
+(* ================= fast path for negative quarter turns; copy_blade ================= *)
+Lemma three_val : R_ three = 3 /\ fin three.
+Proof. split; [|reflexivity]. vm_compute three. unfold B2R, F2R. simpl. lra. Qed.
+
+Lemma rnd_IZR z : (Z.abs z <= 2 ^ 53)%Z -> rnd (IZR z) = IZR z.
+Proof. intros H. apply round_generic; auto with typeclass_instances. now apply fmt_IZR. Qed.
+
+Lemma Zceil_div4 m : Zceil (IZR m / 4) = ((m + 3) / 4)%Z.
+Proof.
+apply Zceil_imp.
+pose proof (Z_div_mod_eq_full (m + 3) 4) as E. pose proof (Z.mod_pos_bound (m + 3) 4 ltac:(lia)) as B.
+set (k := ((m + 3) / 4)%Z) in *. set (r := ((m + 3) mod 4)%Z) in *.
+assert (Em : IZR m = 4 * IZR k + IZR r - 3).
+{ replace m with (4 * k + r - 3)%Z at 1 by lia. rewrite minus_IZR, plus_IZR, mult_IZR. simpl. ring. }
+assert (R0 : 0 <= IZR r <= 3). { split; apply IZR_le; lia. }
+rewrite minus_IZR. simpl. split; lra.
+Qed.
+
+Lemma new_neg_quarter_turns d : (- 2 ^ 50 < d < 0)%Z ->
+  new (of_Z d) two = {| rem := zero; blade := d + 4 * ((- d + 6) / 4) |}.
+Proof.
+intros Hd. destruct (of_Z_R d ltac:(lia)) as [V Fp].
+destruct three_val as [V3 F3]. destruct four_val as [V4 F4].
+rewrite new_unfold. unfold fast_path.
+replace (feq two two) with true by (vm_compute; reflexivity).
+rewrite (ffract_int _ d Fp V). cbn [andb]. unfold fast_blade.
+rewrite flt_R by auto using fin_zero. rewrite V, R_zero.
+rewrite Rlt_bool_true by (apply IZR_lt; lia).
+set (k := ((- d + 6) / 4)%Z).
+assert (Kb : (0 < k <= 2 ^ 49)%Z).
+{ unfold k. split. apply Z.div_str_pos; lia. apply Z.div_le_upper_bound; lia. }
+assert (Kd : (3 <= d + 4 * k <= 6)%Z).
+{ unfold k. pose proof (Z_div_mod_eq_full (- d + 6) 4). pose proof (Z.mod_pos_bound (- d + 6) 4 ltac:(lia)). lia. }
+(* -p + 3 *)
+destruct (fadd_R (fneg (of_Z d)) three (fin_fneg _ Fp) F3) as [VA FA].
+{ rewrite fneg_R, V, V3. apply Rle_trans with (bpow radix2 52); [|apply bpow_le; lia].
+  rewrite <- opp_IZR, <- plus_IZR, <- abs_IZR. change (bpow radix2 52) with (IZR (2 ^ 52)). apply IZR_le. lia. }
+rewrite fneg_R, V, V3, <- opp_IZR, <- plus_IZR in VA. rewrite rnd_IZR in VA by lia.
+(* / 4 *)
+destruct (fdiv_R (fadd (fneg (of_Z d)) three) four FA) as [VD FD].
+{ rewrite V4; lra. }
+{ rewrite VA, V4. apply Rle_trans with (bpow radix2 52); [|apply bpow_le; lia].
+  rewrite Rabs_pos_eq. 2:{ apply Rmult_le_pos; [apply IZR_le; lia|lra]. }
+  change (bpow radix2 52) with (IZR (2 ^ 52)). assert (IZR (- d + 3) <= IZR (2 ^ 52)) by (apply IZR_le; lia). lra. }
+rewrite VA, V4 in VD.
+assert (FQ : fmt (IZR (- d + 3) / 4)).
+{ replace (IZR (- d + 3) / 4) with (F2R (Float radix2 (- d + 3) (-2))) by (unfold F2R; simpl; lra).
+  apply generic_format_FLT. apply FLT_spec with (Float radix2 (- d + 3) (-2)); simpl; auto; unfold emax, prec; lia. }
+rewrite round_generic in VD by (auto with typeclass_instances).
+(* ceil *)
+destruct (fceil_R _ FD) as [VC FC]. rewrite VD, Zceil_div4 in VC.
+replace (- d + 3 + 3)%Z with (- d + 6)%Z in VC by lia. fold k in VC.
+(* * 4 *)
+destruct (fmul_R _ four FC F4) as [VM FM].
+{ rewrite VC, V4. apply Rle_trans with (bpow radix2 52); [|apply bpow_le; lia].
+  rewrite Rabs_pos_eq. 2:{ apply Rmult_le_pos; [apply IZR_le; lia|lra]. }
+  change (bpow radix2 52) with (IZR (2 ^ 52)). assert (IZR k <= IZR (2 ^ 49)) by (apply IZR_le; lia). simpl in *. lra. }
+rewrite VC, V4 in VM. replace (IZR k * 4) with (IZR (k * 4)) in VM by (rewrite mult_IZR; simpl; ring).
+rewrite rnd_IZR in VM by lia.
+(* p + that *)
+destruct (fadd_R (of_Z d) _ Fp FM) as [VS FS].
+{ rewrite V, VM, <- plus_IZR, <- abs_IZR. apply Rle_trans with (IZR 6). apply IZR_le. lia.
+  apply Rle_trans with (bpow radix2 3); [simpl; lra|apply bpow_le; lia]. }
+rewrite V, VM, <- plus_IZR in VS. rewrite rnd_IZR in VS by lia.
+rewrite (f2usize_int _ (d + k * 4) FS VS) by (unfold USIZE_MAX; lia).
+f_equal. lia.
+Qed.
+
+(* copy_blade: reaches the other's exact blade when that is not smaller; otherwise a blade congruent
+   to it modulo 4, between 3 and 6 above the current one; remainder and magnitude untouched *)
+Lemma copy_blade_spec g other : canonp (rem (ang g)) ->
+  (0 <= blade (ang g) < 2 ^ 50)%Z -> (0 <= blade (ang other) < 2 ^ 50)%Z ->
+  mag (copy_blade g other) = mag g /\
+  R_ (rem (ang (copy_blade g other))) = R_ (rem (ang g)) /\
+  ((blade (ang g) <= blade (ang other))%Z -> blade (ang (copy_blade g other)) = blade (ang other)) /\
+  ((blade (ang other) < blade (ang g))%Z ->
+     (blade (ang g) + 3 <= blade (ang (copy_blade g other)) <= blade (ang g) + 6)%Z /\
+     (blade (ang (copy_blade g other)) mod 4 = blade (ang other) mod 4)%Z).
+Proof.
+intros C Bg Bo. unfold copy_blade. cbn [mag ang]. unfold add_vv.
+set (d := (blade (ang other) - blade (ang g))%Z).
+split; [reflexivity|].
+destruct (Z_lt_ge_dec d 0) as [Neg|Pos].
+- rewrite (new_neg_quarter_turns d ltac:(lia)).
+  set (k := ((- d + 6) / 4)%Z).
+  destruct (step_by_k (ang g) (d + 4 * k) C) as (B & R & _).
+  split; [exact R|]. split; [intros H; unfold d in Neg; lia|]. intros _. rewrite B.
+  assert (Kd : (3 <= d + 4 * k <= 6)%Z).
+  { unfold k. pose proof (Z_div_mod_eq_full (- d + 6) 4). pose proof (Z.mod_pos_bound (- d + 6) 4 ltac:(lia)). lia. }
+  split; [lia|].
+  replace (blade (ang g) + (d + 4 * k))%Z with (blade (ang other) + k * 4)%Z by (unfold d; lia).
+  apply Z.mod_add. lia.
+- rewrite (new_quarter_turns d ltac:(lia)).
+  destruct (step_by_k (ang g) d C) as (B & R & _).
+  split; [exact R|]. split. intros _. rewrite B. unfold d. lia. intros H. unfold d in Pos. lia.
+Qed.
